@@ -232,24 +232,6 @@ def jsonStringify (numStr : FV → Str) (fuel : Nat) (v : SV) (r : Replacer) (sp
 
 /-! ### deviation regions (decidable predicates on the request) -/
 
-def lenM : JMs → Nat
-  | .nil => 0
-  | .cons _ _ t => 1 + lenM t
-
-mutual
-/-- some object has two or more properties: their enumeration order is then observable -/
-def unordered : JV → Bool
-  | .arr l => unorderedL l
-  | .obj m => lenM m ≥ 2 || unorderedM m
-  | _ => false
-def unorderedL : JVs → Bool
-  | .nil => false
-  | .cons v t => unordered v || unorderedL t
-def unorderedM : JMs → Bool
-  | .nil => false
-  | .cons _ v t => unordered v || unorderedM t
-end
-
 /-- an escaped surrogate half that is not part of an escaped high+low pair -/
 def loneEsc : List Item → Bool
   | [] => false
@@ -258,85 +240,49 @@ def loneEsc : List Item → Bool
   | .esc u :: .esc w :: t => if isHi u ∧ isLo w then loneEsc t else isSurr u || loneEsc (.esc w :: t)
   | .esc u :: .raw _ :: t => isSurr u || loneEsc t
 
-def overflows (n : NumLit) : Bool := match n.value with | .inf _ => true | _ => false
-
 mutual
-def rtAny (pn : NumLit → Bool) (ps : List Item → Bool) : RT → Bool
-  | .num n => pn n
+/-- some string literal (value or key) of the syntax tree satisfies `ps` -/
+def rtAny (ps : List Item → Bool) : RT → Bool
   | .str s => ps s
-  | .arr l => rtAnyL pn ps l
-  | .obj m => rtAnyM pn ps m
+  | .arr l => rtAnyL ps l
+  | .obj m => rtAnyM ps m
   | _ => false
-def rtAnyL (pn : NumLit → Bool) (ps : List Item → Bool) : RTs → Bool
+def rtAnyL (ps : List Item → Bool) : RTs → Bool
   | .nil => false
-  | .cons v t => rtAny pn ps v || rtAnyL pn ps t
-def rtAnyM (pn : NumLit → Bool) (ps : List Item → Bool) : RMs → Bool
+  | .cons v t => rtAny ps v || rtAnyL ps t
+def rtAnyM (ps : List Item → Bool) : RMs → Bool
   | .nil => false
-  | .cons k v t => ps k || rtAny pn ps v || rtAnyM pn ps t
+  | .cons k v t => ps k || rtAny ps v || rtAnyM ps t
 end
 
-
-/-! ### canonical form of a value whose property order is unobservable / unspecified -/
-mutual
-def canon : JV → JV
-  | .arr l => .arr (canonL l)
-  | .obj m => .obj (sortKeys (canonM m))
-  | v => v
-def canonL : JVs → JVs
-  | .nil => .nil
-  | .cons v t => .cons (canon v) (canonL t)
-def canonM : JMs → JMs
-  | .nil => .nil
-  | .cons k v t => .cons k (canon v) (canonM t)
-end
-
-def htmlChar (c : Nat) : Bool := c = 60 || c = 62 || c = 38 || c = 0x2028 || c = 0x2029
+/-- the characters Go's encoder escapes although Quote copies them: U+2028 and U+2029 -/
+def lsps (c : Nat) : Bool := c = 0x2028 || c = 0x2029
 
 def sortedKeys : JMs → Bool
   | .nil => true
   | .cons _ _ .nil => true
   | .cons k _ (.cons k' v' t) => ltKeyBytes k k' && sortedKeys (.cons k' v' t)
 
-/-- the exact integer expansion Go prints differs from the ES5 shortest-digits form -/
-def intDigitsDiffer (x : FV) : Bool :=
-  match x with
-  | .fin s m e =>
-    m != 0 && isIntegral m e && decide (truncAbs m e < 2 ^ 63) &&
-      (C06.formatInt (truncInt (.fin s m e)) 10 != C06.Spec.toStringNum x)
-  | _ => false
-
 mutual
-def jvAny (pn : FV → Bool) (ps : Str → Bool) (pm : JMs → Bool) : JV → Bool
-  | .num x => pn x
+def jvAny (ps : Str → Bool) (pm : JMs → Bool) : JV → Bool
   | .str s => ps s
-  | .arr l => jvAnyL pn ps pm l
-  | .obj m => pm m || jvAnyM pn ps pm m
+  | .arr l => jvAnyL ps pm l
+  | .obj m => pm m || jvAnyM ps pm m
   | _ => false
-def jvAnyL (pn : FV → Bool) (ps : Str → Bool) (pm : JMs → Bool) : JVs → Bool
+def jvAnyL (ps : Str → Bool) (pm : JMs → Bool) : JVs → Bool
   | .nil => false
-  | .cons v t => jvAny pn ps pm v || jvAnyL pn ps pm t
-def jvAnyM (pn : FV → Bool) (ps : Str → Bool) (pm : JMs → Bool) : JMs → Bool
+  | .cons v t => jvAny ps pm v || jvAnyL ps pm t
+def jvAnyM (ps : Str → Bool) (pm : JMs → Bool) : JMs → Bool
   | .nil => false
-  | .cons k v t => ps k || jvAny pn ps pm v || jvAnyM pn ps pm t
+  | .cons k v t => ps k || jvAny ps pm v || jvAnyM ps pm t
 end
 
 def no1 {α : Type} : α → Bool := fun _ => false
 
-/-- a skipped item (rejected or duplicate) in front of an accepted one: otto then stores names
-    at the wrong slots -/
-def plSkipBeforeAccept (numStr : FV → Str) (items : List PLItem) : Bool :=
-  let rec go : List PLItem → List Str → Bool → Bool
-    | [], _, _ => false
-    | it :: rest, seen, skipped =>
-      match Spec.PLItem.name numStr it with
-      | none => go rest seen true
-      | some n => if seen.contains n then go rest seen true else skipped || go rest (n :: seen) skipped
-  go items [] false
-
-def gapDev (sp : Space) : Bool :=
+/-- the first ten code units of a string gap hold an unpaired surrogate (possibly a pair cut in two) -/
+def gapLone (sp : Space) : Bool :=
   match sp with
-  | .str s => (s.take 10).any (· ≥ 128) && (decide ((Str.bytesOfUnits s).length > 10) || goStr s != s)
+  | .str s => goStr (s.take 10) != s.take 10
   | _ => false
-
 
 end OttoVerif.C11.Spec
